@@ -25,6 +25,9 @@ import zlib
 from lib import vfmt
 
 PROPERTY = 'C15'
+import isolation as _iso
+ISOLATION = [(n, getattr(_iso, n)) for n in ['kafka_protocol']]      # instance-isolation obligation (harness/isolation.py)
+ISOLATION_SHARED_OK = ('MSG_HEADER', 'MSG_STRUCT', 'PRODUCE_HEADER')    # struct.Struct constants of the class
 COMPONENT = 'kafkacodec'
 QUICK = dict(gen=480, big=2)
 THOROUGH = dict(gen=24000, big=6)
